@@ -487,6 +487,90 @@ fn run_mask(f: &[&str]) -> Result<String, String> {
     }
 }
 
+/// MA id kind ... : Message / Frame accessor API.
+///   T <hex> | B <hex> | PI <hex> | PO <hex> | C <code|-> <hex> | F <flags> <opc> <mask> <hex>
+/// prints flags:len:empty:data:into_text:to_text:display:bytes_from:ctor
+fn run_message_api(f: &[&str]) -> Result<String, String> {
+    use bytes::BytesMut;
+    let mut ctor = true;
+    let m: Message = match f[2] {
+        "T" => {
+            let raw = unhex(f[3]);
+            let s = String::from_utf8(raw.clone()).map_err(|_| "text not utf8")?;
+            let m = Message::text(s.clone());
+            ctor &= m == Message::from(s.clone());
+            ctor &= m == Message::from(s.as_str());
+            ctor &= m == Message::Text(Utf8Bytes::from(s.clone()));
+            ctor &= m == Message::Text(Utf8Bytes::from(&s));
+            ctor &= m == Message::Text(Utf8Bytes::from(s.as_str()));
+            ctor &= Utf8Bytes::try_from(raw.clone()).map(Message::Text).ok() == Some(m.clone());
+            ctor &= Utf8Bytes::try_from(Bytes::from(raw.clone())).map(Message::Text).ok() == Some(m.clone());
+            ctor &= Utf8Bytes::try_from(BytesMut::from(&raw[..])).map(Message::Text).ok() == Some(m.clone());
+            if let Message::Text(u) = &m {
+                ctor &= u.as_str() == s.as_str() && Bytes::from(u.clone()) == Bytes::from(raw.clone());
+                ctor &= format!("{u}") == s && *u == s.as_str();
+            }
+            m
+        }
+        "B" => {
+            let raw = unhex(f[3]);
+            let m = Message::binary(raw.clone());
+            ctor &= m == Message::from(&raw[..]);
+            ctor &= m == Message::from(raw.clone());
+            ctor &= m == Message::from(Bytes::from(raw.clone()));
+            ctor &= m == Message::Binary(Bytes::from(raw.clone()));
+            // invalid UTF-8 must be refused by every Utf8Bytes conversion, valid accepted unchanged
+            let valid = std::str::from_utf8(&raw).is_ok();
+            ctor &= Utf8Bytes::try_from(raw.clone()).is_ok() == valid;
+            ctor &= Utf8Bytes::try_from(Bytes::from(raw.clone())).is_ok() == valid;
+            ctor &= Utf8Bytes::try_from(BytesMut::from(&raw[..])).is_ok() == valid;
+            m
+        }
+        "PI" => Message::Ping(Bytes::from(unhex(f[3]))),
+        "PO" => Message::Pong(Bytes::from(unhex(f[3]))),
+        "C" => Message::Close(close_of(f[3], f[4])?),
+        "F" => {
+            let h = header_of(f[3], f[4], f[5])?;
+            let fr = Frame::from_payload(h, Bytes::from(unhex(f[6])));
+            // Frame accessors agree with the Message::Frame ones
+            ctor &= fr.payload() == &unhex(f[6])[..];
+            ctor &= fr.clone().into_payload() == Bytes::from(unhex(f[6]));
+            ctor &= fr.to_text().ok().map(|s| s.as_bytes().to_vec()) == fr.clone().into_text().ok().map(|u| u.as_bytes().to_vec());
+            ctor &= !fr.is_empty();
+            Message::Frame(fr)
+        }
+        _ => return Err("kind".into()),
+    };
+    let flags = format!(
+        "{}{}{}{}{}",
+        m.is_text() as u8,
+        m.is_binary() as u8,
+        m.is_ping() as u8,
+        m.is_pong() as u8,
+        m.is_close() as u8
+    );
+    let it = match m.clone().into_text() {
+        Ok(u) => format!("ok={}", hex(u.as_bytes())),
+        Err(_) => "err".into(),
+    };
+    let tt = match m.to_text() {
+        Ok(u) => format!("ok={}", hex(u.as_bytes())),
+        Err(_) => "err".into(),
+    };
+    Ok(format!(
+        "{}:{}:{}:{}:{}:{}:{}:{}:{}",
+        flags,
+        m.len(),
+        m.is_empty() as u8,
+        hex(&m.clone().into_data()),
+        it,
+        tt,
+        hex(format!("{m}").as_bytes()),
+        hex(&Bytes::from(m.clone())),
+        ctor as u8
+    ))
+}
+
 /// FS id pre ops rds wrs fls : FrameSocket API (read / write / send / flush on raw frames)
 fn run_framesocket(f: &[&str]) -> Result<(String, String), String> {
     let pre = unhex(f[2]);
@@ -703,6 +787,7 @@ fn main() {
                 "FF" => (line.clone(), run_frame_format(&f).unwrap_or_else(|e| format!("bad-case:{e}"))),
                 "U8" => (line.clone(), run_utf8(&f)),
                 "MK" => (line.clone(), run_mask(&f).unwrap_or_else(|e| format!("bad-case:{e}"))),
+                "MA" => (line.clone(), run_message_api(&f).unwrap_or_else(|e| format!("bad-case:{e}"))),
                 "KS" => (line.clone(), run_key_stats(&f)),
                 "EP" => (line.clone(), run_entry_points(&f)),
                 "FS" => match run_framesocket(&f) {
